@@ -123,9 +123,27 @@ fn c05_assoc(v: &[Val]) -> Result<bool, String> {
 /// tolerance for the Cartesian position of a sum with operand scale `s`, result length `r` and combined blade count `cb`
 fn sum_tol(s: f64, r: f64, cb: usize) -> f64 {
     let shift = cb as f64 * QP;
-    let dir = 4.0 * ulp_of(shift) + 4.0 * EPS + 2.0 * TOL; // direction error in radians (re-encoding subtracts cb·π/2)
+    let dir = 4.0 * ulp_of(shift) + 4.0 * EPS + 2.0 * TOL; // direction error in radians (re-encoding subtracts cb·π/2; the snap to a quarter turn moves it by up to 1e-10)
     let cancel = if r < 1e-3 * s { 8.0 * EPS.sqrt() * s } else { 64.0 * EPS * s * s / r.max(1e-300) };
     TOL + r * dir + 64.0 * EPS * s + cancel.min(8.0 * EPS.sqrt() * s)
+}
+/// the same, but the 1e-10 rad direction allowance is granted only when the result's remainder is exactly 0 — the only way the
+/// boundary snap can have moved the direction; otherwise the direction is good to a few ulps of the shifted total
+fn sum_tol_res(s: f64, r: f64, cb: usize, res: &Geonum) -> f64 {
+    if res.angle.rem() == 0.0 { return sum_tol(s, r, cb); }
+    let shift = (cb as f64 * QP).max(8.0);
+    let dir = 8.0 * ulp_of(shift) + 8.0 * EPS;
+    let cancel = if r < 1e-3 * s { 8.0 * EPS.sqrt() * s } else { 64.0 * EPS * s * s / r.max(1e-300) };
+    TOL + r * dir + 64.0 * EPS * s + cancel.min(8.0 * EPS.sqrt() * s)
+}
+/// operands of very different size: the small one is between 1e-15 and 1e-9 of the large one (it must still move the sum)
+fn g_c06(r: &mut Rng) -> Vec<Val> {
+    if !r.chance(1, 4) { return g_gg(r); }
+    let big = log_uniform(r, -2.0, 8.0);
+    let small = big * log_uniform(r, -15.0, -9.0);
+    let (x, y) = gen_angle_pair(r);
+    let (a, b) = (Geonum::new_with_angle(big, x), Geonum::new_with_angle(small, y));
+    if r.chance(1, 2) { vec![Val::G(a), Val::G(b)] } else { vec![Val::G(b), Val::G(a)] }
 }
 fn c06_sum(v: &[Val]) -> Result<bool, String> {
     let (a, b) = gg(v);
@@ -154,7 +172,7 @@ fn c06_sum(v: &[Val]) -> Result<bool, String> {
         let (sx, sy) = cart(&res);
         let scale = a.mag.max(b.mag);
         let r = (ex * ex + ey * ey).sqrt();
-        let tol = sum_tol(scale, r.max(res.mag), a.angle.blade() + b.angle.blade() + 2);
+        let tol = sum_tol_res(scale, r.max(res.mag), a.angle.blade() + b.angle.blade() + 2, &res);
         let err = ((sx - ex).powi(2) + (sy - ey).powi(2)).sqrt();
         if err > tol { return Err(format!("{} = {} is ({:e},{:e}) but the component sum is ({:e},{:e}); off by {:e} > {:e}", what, show_g(&res), sx, sy, ex, ey, err, tol)); }
     }
@@ -439,6 +457,14 @@ fn c13_invert(v: &[Val]) -> Result<bool, String> {
     let off = p - c;
     let res = catches(move || p.invert_circle(&c, rad));
     if (off.mag == 0.0) != res.is_none() { return Err(format!("invert_circle panics={} but |p-c| = {:e}", res.is_none(), off.mag)); }
+    // independent of the library's own subtraction: two points on one ray (bit-identical angles) are |p|-|c| apart exactly, and the
+    // documented panic is "at the centre" (offsets below the 1e-10 cancellation threshold count as the centre)
+    if same_angle(&p.angle, &c.angle) && p.mag.is_finite() && c.mag.is_finite() {
+        let gap = (p.mag - c.mag).abs();
+        if gap >= 1e-10 * (1.0 + 1e-9) && res.is_none() { return Err(format!("invert_circle panicked although p is {:e} away from the centre on the same ray (|p| = {:e}, |c| = {:e})", gap, p.mag, c.mag)); }
+        if gap < 1e-10 * (1.0 - 1e-9) && res.is_some() { return Err(format!("invert_circle did not panic {:e} from the centre", gap)); }
+        if gap >= 1e-10 * (1.0 + 1e-9) && (off.mag - gap).abs() > 4.0 * EPS * gap { return Err(format!("|p-c| = {:e} on one ray but |p|-|c| = {:e}", off.mag, gap)); }
+    }
     let q = match res { Some(q) => q, None => return Ok(false) };
     mag_ok("invert_circle", q.mag)?; canon(&q.angle)?;
     let scale = p.mag.max(c.mag).max(q.mag).max(rad);
@@ -557,7 +583,7 @@ pub fn clauses2() -> Vec<Clause> {
         Clause { prop: "C05", name: "scale", sig: "GF", gen: g_gf, check: c05_scale },
         Clause { prop: "C05", name: "pow", sig: "GF", gen: g_pow, check: c05_pow },
         Clause { prop: "C05", name: "assoc", sig: "GGG", gen: g_ggg, check: c05_assoc },
-        Clause { prop: "C06", name: "sum", sig: "GG", gen: g_gg, check: c06_sum },
+        Clause { prop: "C06", name: "sum", sig: "GG", gen: g_c06, check: c06_sum },
         Clause { prop: "C06", name: "running", sig: "L", gen: g_seq, check: c06_running },
         Clause { prop: "C08", name: "shift", sig: "GGNN", gen: g_shift, check: c08_shift },
         Clause { prop: "C09", name: "dot", sig: "GG", gen: g_gg, check: c09_dot },
